@@ -402,6 +402,42 @@ def rule_reset(check):
         sim.run_until(holder if holder is not None else n)
         order = isinstance(sim.slot, tuple) and sim.slot[0] == "saved"
 
+        def conjuncts(e):
+            e = hir.peel(e)
+            if e.get("k") == "Binary" and e["op"] in ("And", "BitAnd"):
+                return conjuncts(e["l"]) + conjuncts(e["r"])
+            return [e]
+
+        def from_guard_field(e):
+            """a boolean the guard carries (`self.reset_on_drop`): the conjuncts it was computed from where
+            the guard was built, read in that function - the context installed there is the one being left at
+            drop, the one found there on entry is the one the guard restores"""
+            e0 = hir.peel(e)
+            if not (e0.get("k") == "Field" and (e0.get("ty") or "") == "bool"):
+                return None
+            lb = hir.local_of(hir.peel(e0["x"]))
+            if not lb or lb[1] != "self":
+                return None
+            out = None
+            for g2 in prog.user_fns:
+                for lit in [x for x in hir.walk(g2.body) if x.get("k") == "Struct" and (x["res"].get("path") or "").endswith("WithCtx")]:
+                    fl = {x["name"]: x["e"] for x in lit["fields"]}
+                    if e0["field"] not in fl:
+                        continue
+                    s2 = _CtxSim(prog, g2).run_until(lit)
+                    saved_is_entry = any(s2.ev(v_) == "ENTRY" for k_, v_ in fl.items() if k_ != e0["field"])
+                    kinds_ = []
+                    for cj in conjuncts(fl[e0["field"]]):
+                        v2 = s2.ev(cj)
+                        if isinstance(v2, tuple) and v2[0] == "fld" and v2[2] == "root" and v2[1] == "ENTRY" and saved_is_entry:
+                            kinds_.append("root-now")
+                        elif isinstance(v2, tuple) and v2[0] == "fld" and v2[2] == "auto_reset" and v2[1] is not None and v2[1] == s2.slot:
+                            kinds_.append("auto-child")
+                        else:
+                            kinds_.append(None)
+                    out = kinds_ if out is None else out
+            return out
+
         def classify(e):
             """root-now | auto-child | None for one conjunct of the reset condition"""
             v = _CtxSim.ev(sim_pure(), e)
@@ -420,18 +456,14 @@ def rule_reset(check):
             c_.env = dict(sim.env)
             return c_
 
-        def conjuncts(e):
-            e = hir.peel(e)
-            if e.get("k") == "Binary" and e["op"] in ("And", "BitAnd"):
-                return conjuncts(e["l"]) + conjuncts(e["r"])
-            return [e]
-
         kinds = []
         for c in f.conds_at(n):
             if c["t"] != "bool" or c["v"] is not True:
                 kinds.append(None)
                 continue
-            kinds += [classify(x) for x in conjuncts(c["e"])]
+            for x in conjuncts(c["e"]):
+                gf = from_guard_field(x) if order else None
+                kinds += gf if gf else [classify(x)]
         conj = sorted(k or "?" for k in kinds) == ["auto-child", "root-now"]
         if not conj and sorted(k or "?" for k in kinds) == ["root-now"]:
             # a context type without an auto-reset flag: every child context resets, the root test alone decides
